@@ -16,3 +16,4 @@ CFG = dict(
                 "are excluded because the statement defines no winner. The Add/AddCloser flag-test/lock windows are placed through verif points (concurrency package).",
      assumptions=["testing/synctest virtual time is correct", "fatal action replaced through the repository's own WithFatalShutdown (unit tag)"],
      timeout_quick=300, timeout_thorough=2400)
+CFG["rule"] += ' Added after independently written breaking changes: Runners are registered through the constructor, through Add before Run, or both.'
